@@ -58,7 +58,7 @@ def make_matrix(dendropy, spec, ns, taxa):
     """spec: {"type", "rows": [[symbol,...] per taxon code-1], + alphabet definition for standard};
     returns (matrix, {id(anonymous state): its name in the log})"""
     if spec["type"] == "dna":
-        d = dict((t.label, list(spec["rows"][k])) for k, t in enumerate(taxa))
+        d = dict((t.label, list(spec["rows"][k])) for k, t in enumerate(taxa[:len(spec["rows"])]))
         return dendropy.DnaCharacterMatrix.from_dict(d, taxon_namespace=ns), {}
     sa = dendropy.new_standard_state_alphabet("".join(spec["fund"]))
     anon = {}
@@ -67,7 +67,7 @@ def make_matrix(dendropy, spec, ns, taxa):
             anon[a["sym"]] = sa.new_ambiguous_state(None, member_state_symbols="".join(a["mem"]))
         else:
             sa.new_ambiguous_state(a["sym"], member_state_symbols="".join(a["mem"]))
-    d = dict((t.label, [anon.get(x, x) for x in spec["rows"][k]]) for k, t in enumerate(taxa))
+    d = dict((t.label, [anon.get(x, x) for x in spec["rows"][k]]) for k, t in enumerate(taxa[:len(spec["rows"])]))
     m = dendropy.StandardCharacterMatrix.from_dict(d, taxon_namespace=ns, default_state_alphabet=sa)
     return m, dict((id(st), name) for name, st in anon.items())
 
@@ -76,7 +76,7 @@ def project_matrix(m, spec, taxa, anon_names=None):
     """the matrix the library holds, as symbols per taxon (accession order) and the alphabet that was defined"""
     anon_names = anon_names or {}
     rows = []
-    for t in taxa:
+    for t in taxa[:len(spec["rows"])]:
         rows.append([(c.symbol if isinstance(c.symbol, str) else anon_names.get(id(c), "<%r>" % (c.symbol,))) for c in m[t]])
     if spec["type"] == "dna":
         return {"type": "dna", "fund": [], "gap": "-", "missing": "?", "amb": [], "rows": rows}
@@ -123,6 +123,30 @@ def nested_of(tree, taxa):
     def rec(nd):
         return [None, tix.get(id(nd.taxon)) if nd.taxon is not None else None, None, [rec(c) for c in nd._child_nodes]]
     return rec(tree._seed_node)
+
+
+def collapse_root_child(nested, rng):
+    """bifurcating-root nested tree -> the same unrooted tree held with a trifurcating seed node"""
+    k = [i for i, c in enumerate(nested[3]) if c[3]]
+    if len(nested[3]) == 2 and k:
+        i = rng.choice(k)
+        c = nested[3][i]
+        nested[3][i:i + 1] = c[3]
+    return nested
+
+
+def shape_ok(tree):
+    """documented precondition, read from raw pointers: fully bifurcating (seed with 2 or 3 children), >= 2 leaves"""
+    seed = tree._seed_node
+    if seed is None or len(seed._child_nodes) not in (2, 3):
+        return False
+    st = list(seed._child_nodes)
+    while st:
+        nd = st.pop()
+        if len(nd._child_nodes) not in (0, 2) or (not nd._child_nodes and nd.taxon is None):
+            return False
+        st.extend(nd._child_nodes)
+    return True
 
 
 class World(object):
@@ -182,11 +206,18 @@ class World(object):
         return ev
 
     def move(self, kind, node=None):
-        """Reroot (on the edge above `node`), Rotate (swap the children of `node`), UpPass"""
+        """Reroot (on the edge above `node`), RerootNode (at internal `node`: trifurcating seed), Prune (leaf `node`),
+        Rotate (reverse the children of `node`), UpPass"""
         g, nid, pre, _ = self.snapshot()
         try:
             if kind == "Reroot":
                 self.tree.reroot_at_edge(node.edge, update_bipartitions=False)
+                self.scored = False
+            elif kind == "RerootNode":
+                self.tree.reroot_at_node(node, update_bipartitions=False)
+                self.scored = False
+            elif kind == "Prune":
+                self.tree.prune_taxa_with_labels([node.taxon.label])
                 self.scored = False
             elif kind == "Rotate":
                 node.set_child_nodes(list(reversed(node.child_nodes())))
@@ -210,37 +241,51 @@ APIS = ["parsimony_score", "treescore.parsimony_score", "fitch_down_pass", "pars
 
 
 # ------------------------------------------------------------------ case runners
+CELLS9 = [frozenset(c) for c in ([0], [1], [2], [0, 1], [0, 2], [1, 2], [0, 1, 2], [3], [0, 1, 2, 3])]
+
+
 def run_table(case):
-    """one input (shape, matrix): every call on a fresh tree"""
+    """one input (shape, matrix): every call on a fresh tree.  The namespace (and the matrix) may hold `extra`
+    taxa that are not on the tree; with `tri` the same input is also scored on the trifurcating-seed form"""
     import dendropy
     rng = random.Random(case["seed"])
     par = case["par"]
     nl = build.num_leaves([p - 1 for p in par])
-    perm = list(range(nl))
-    rng.shuffle(perm)                    # leaf i (left to right) carries taxon perm[i]
-    nested = build.nested_from_parents(list(par), perm)
-    ns, taxa = build.make_namespace(dendropy, nl)
+    ntax = nl + case.get("extra", 0)
+    perm = list(range(ntax))
+    rng.shuffle(perm)                    # leaf i (left to right) carries taxon perm[i]; perm[nl:] are not on the tree
+    nested = build.nested_from_parents(list(par), perm[:nl])
+    forms = [nested]
+    if case.get("tri") and nl >= 3:
+        forms.append(collapse_root_child(build.nested_from_parents(list(par), perm[:nl]), rng))
+    ns, taxa = build.make_namespace(dendropy, ntax)
     evs = []
-    for spec0 in case["mats"]:
-        rows = [None] * nl
+    for mi, spec0 in enumerate(case["mats"]):
+        nchar = len(spec0["leafrows"][0])
+        rows = [None] * ntax
         for i in range(nl):
             rows[perm[i]] = spec0["leafrows"][i]       # row of the taxon sitting on leaf i
+        for i in range(nl, ntax):
+            cells = [rng.choice(CELLS9) for _ in range(nchar)]
+            rows[perm[i]] = ([STD3_SYM[c] for c in cells] if spec0["type"] == "standard"
+                             else [dna_embed(c, spec0["sigma"]) for c in cells])
         spec = dict(spec0, rows=rows)
         m, anon = make_matrix(dendropy, spec, ns, taxa)
         pm = project_matrix(m, spec, taxa, anon)
-        calls = []
-        g = None
         k = rng.randrange(4)
-        for gm in (True, False):
-            for w in case["weights"]:
-                api = APIS[k % len(APIS)]
-                k += 1
-                tree = build.build_tree(dendropy, nested, ns, taxa, rooted=(k % 3 != 0))
-                if g is None:
-                    g = proj.tree_graph(tree, labels=False)
-                attr = "state_sets" if k % 2 else ""
-                calls.append(do_score(dendropy, tree, m, api, gm, w, True if k % 5 else False, attr))
-        evs.append({"action": "Table", "g": g, "m": pm, "calls": calls})
+        for form in (forms if mi == 0 else forms[:1]):
+            calls = []
+            g = None
+            for gm in (True, False):
+                for w in case["weights"]:
+                    api = APIS[k % len(APIS)]
+                    k += 1
+                    tree = build.build_tree(dendropy, form, ns, taxa, rooted=(k % 3 != 0))
+                    if g is None:
+                        g = proj.tree_graph(tree, labels=False)
+                    attr = "state_sets" if k % 2 else ""
+                    calls.append(do_score(dendropy, tree, m, api, gm, w, True if k % 5 else False, attr))
+            evs.append({"action": "Table", "g": g, "m": pm, "calls": calls})
     return evs
 
 
@@ -250,7 +295,7 @@ def model_matrix_spec(rows_cells, kind, sigma=None):
         d = dict(STD3, type="standard")
         d["leafrows"] = [[STD3_SYM[frozenset(c)] for c in row] for row in rows_cells]
     else:
-        d = {"type": "dna", "leafrows": [[dna_embed(frozenset(c), sigma) for c in row] for row in rows_cells]}
+        d = {"type": "dna", "sigma": list(sigma), "leafrows": [[dna_embed(frozenset(c), sigma) for c in row] for row in rows_cells]}
     return d
 
 
@@ -260,7 +305,8 @@ def run_path(case):
     par = case["par"]
     nl = build.num_leaves([p - 1 for p in par])
     nested = build.nested_from_parents(list(par), list(range(nl)))
-    w = World(dendropy, nested, nl, "state_sets")
+    ntax = max([nl] + [len(a[0]) for (n, a) in case["path"] if n == "Score"])
+    w = World(dendropy, nested, ntax, "state_sets")
     # model node ids = preorder ids of the initial tree
     ids = {}
     proj.tree_graph(w.tree, node_ids=ids)
@@ -336,31 +382,40 @@ SMAX = {1: 5, 2: 5, 3: 5, 4: 5, 5: 4, 6: 3, 7: 3, 8: 2}     # internal nodes -> 
 
 
 def run_random(case):
-    """seeded random history on one tree object with 5-9 leaves"""
+    """seeded random history on one tree object with 5-9 leaves; the namespace / matrices may hold taxa that are
+    not on the tree, the tree may start (or be re-rooted) with a trifurcating seed node, leaves may be pruned"""
     import dendropy
     rng = random.Random(case["seed"])
     nl = case["nleaves"]
-    nested = build.assign(build.random_parents(rng, nl, p_poly=0.0, p_unif=0.0), rng, list(range(nl)), len_none_all=True)
+    ntax = nl + rng.choice([0, 0, 1, 2])
+    tix = list(range(ntax))
+    rng.shuffle(tix)
+    nested = build.assign(build.random_parents(rng, nl, p_poly=0.0, p_unif=0.0), rng, tix[:nl], len_none_all=True)
+    if rng.random() < 0.25:
+        collapse_root_child(nested, rng)
     attr = rng.choice(["state_sets", "state_sets", "state_sets", "fitch_sets", ""])
-    w = World(dendropy, nested, nl, attr)
+    w = World(dendropy, nested, ntax, attr)
     smax = SMAX[nl - 1]
     kinds = ["dna" if (nl <= 7 and rng.random() < 0.6) else "standard" for _ in range(3)]
     mats = []
     for i in range(rng.randint(2, 3)):
-        mats.append(random_matrix(rng, nl, rng.randint(1, 3), kinds[i], smax))
+        mats.append(random_matrix(rng, ntax, rng.randint(1, 3), kinds[i], smax))
     if rng.random() < 0.5:                               # same data with one cell changed
         base = mats[0]
         alt = dict(base, rows=[list(r) for r in base["rows"]])
-        t, j = rng.randrange(nl), rng.randrange(len(base["rows"][0]))
+        t, j = rng.randrange(ntax), rng.randrange(len(base["rows"][0]))
         col = [r[j] for r in base["rows"]]
         alt["rows"][t][j] = rng.choice(col)
         mats.append(alt)
     evs = []
     last = None
     for _ in range(case["nops"]):
+        if not shape_ok(w.tree):
+            break                                        # a move left the documented domain: stop here
         r = rng.random()
-        internal = [nd for nd in w.keep_nodes() if nd._child_nodes]
-        if r < 0.62 or not evs:
+        nodes = w.keep_nodes()
+        internal = [nd for nd in nodes if nd._child_nodes]
+        if r < 0.58 or not evs:
             mi = rng.randrange(len(mats))
             gm = rng.random() < 0.5
             again = last is not None and rng.random() < 0.3      # the same data again, other weights
@@ -372,12 +427,20 @@ def run_random(case):
             api = "fitch_down_pass" if attr != "state_sets" else rng.choice(APIS)
             evs.append(w.score(mi, spec, api, gm, wt, rng.random() < (0.4 if again else 0.75)))
             last = (mi, gm)
-        elif r < 0.80:
-            cands = [nd for nd in w.keep_nodes() if nd._parent_node is not None and nd._parent_node._parent_node is not None]
+        elif r < 0.70:
+            cands = [nd for nd in nodes if nd._parent_node is not None and nd._parent_node._parent_node is not None]
             if cands:
                 evs.append(w.move("Reroot", rng.choice(cands)))
-        elif r < 0.93:
+        elif r < 0.79:
+            cands = [nd for nd in internal if nd._parent_node is not None]
+            if cands:
+                evs.append(w.move("RerootNode", rng.choice(cands)))
+        elif r < 0.90:
             evs.append(w.move("Rotate", rng.choice(internal)))
+        elif r < 0.95:
+            leaves = [nd for nd in nodes if not nd._child_nodes]
+            if len(leaves) >= 4:
+                evs.append(w.move("Prune", rng.choice(leaves)))
         elif w.scored and attr:
             evs.append(w.move("UpPass"))
     return evs
@@ -401,15 +464,14 @@ def run_random_table(case):
     import dendropy
     rng = random.Random(case["seed"])
     nl = case["nleaves"]
-    nested = build.assign(build.random_parents(rng, nl, p_poly=0.0, p_unif=0.0), rng, list(range(nl)), len_none_all=True)
+    ntax = nl + rng.choice([0, 1, 2])
+    tix = list(range(ntax))
+    rng.shuffle(tix)
+    nested = build.assign(build.random_parents(rng, nl, p_poly=0.0, p_unif=0.0), rng, tix[:nl], len_none_all=True)
     if case.get("basal_trifurcation"):
-        # outside the documented precondition: unrooted binary tree with a trifurcating seed node (drift only)
-        k = [i for i, c in enumerate(nested[3]) if c[3]]
-        if k:
-            c = nested[3].pop(k[0])
-            nested[3].extend(c[3])
-    ns, taxa = build.make_namespace(dendropy, nl)
-    spec = random_matrix(rng, nl, rng.randint(1, 4), "dna" if (nl <= 7 and rng.random() < 0.5) else "standard", SMAX[nl - 1])
+        collapse_root_child(nested, rng)
+    ns, taxa = build.make_namespace(dendropy, ntax)
+    spec = random_matrix(rng, ntax, rng.randint(1, 4), "dna" if (nl <= 7 and rng.random() < 0.5) else "standard", SMAX[nl - 1])
     m, anon = make_matrix(dendropy, spec, ns, taxa)
     pm = project_matrix(m, spec, taxa, anon)
     nchar = len(spec["rows"][0])
@@ -487,7 +549,7 @@ def weight_vectors(nc, values):
 
 def table_cases(ctx, cfg):
     """every complete input of the dump with at most 4 leaves; of the 5-leaf inputs (thorough tier) a seeded
-    sample of 1 in 10 is replayed on the real code (all of them are checked by TLC at model level)"""
+    sample of 1 in 5 is replayed on the real code (all of them are checked by TLC at model level)"""
     dump = os.path.join(ctx.work, "fitch_t.dump")
     ctx.model("MC_Fitch", cfg, extra=("-dump", dump), heap="3g", timeout=3000 if ctx.quick else 6 * 3600)
     rng = random.Random(ctx.seed + 16)
@@ -497,13 +559,13 @@ def table_cases(ctx, cfg):
         ninputs += 1
         if len(mat) > 4:
             nbig += 1
-            if rng.randrange(10) != 0:
+            if rng.randrange(5) != 0:
                 continue
         mats = [model_matrix_spec(mat, "standard")]
         if k % (6 if ctx.quick else 2) == 0:
             mats.append(model_matrix_spec(mat, "dna", rng.choice(DNA_PERMS)))
         cases.append({"kind": "table", "seed": ctx.seed * 7919 + k, "par": list(par), "mats": mats,
-                      "weights": weight_vectors(nc, (0, 1, 2))})
+                      "weights": weight_vectors(nc, (0, 1, 2)), "extra": k % 3, "tri": True})
     os.remove(dump)
     return cases, ninputs, nbig
 
@@ -606,7 +668,7 @@ def run(ctx):
         rnd.append({"kind": "random", "seed": ctx.seed * 1000003 + i, "nleaves": nl, "nops": 7 if nl >= 8 else 9})
     for i in range(ntab):
         rnd.append({"kind": "random_table", "seed": ctx.seed * 1000003 + 500000 + i, "nleaves": 5 + (i % 5),
-                    "basal_trifurcation": i % 6 == 5})
+                    "basal_trifurcation": i % 3 == 2})
     driven = ctx.drive(cases_t + cases_p + rnd, run_case, chunksize=64)
     ctx.judge("Trace_Fitch", driven, batch=6000 if q else 20000, heap="1g" if q else "2g", timeout=3000 if q else 6 * 3600)
     settle_drift(ctx)
@@ -614,24 +676,25 @@ def run(ctx):
     ctx.extra["root_invariance_comparisons"] = count_root_comparisons(driven)
     ml = 4 if q else 5
     if nbig:
-        ctx.notes.append("%d inputs with 5 leaves are checked by TLC at model level; a seeded 1-in-10 sample of them is replayed on the real code" % nbig)
+        ctx.notes.append("%d inputs with 5 leaves are checked by TLC at model level; a seeded 1-in-5 sample of them is replayed on the real code" % nbig)
     ctx.rule = ("cases = every complete input with <= 4 leaves of TLC's dump of MC_Fitch/SpecT (%d inputs: every ordered bifurcating shape with 2..%d leaves "
-                "x every 1-character matrix over 9 cell kinds, 2-character matrices over {0,1,gap} up to one leaf less; each scored on fresh trees for both gap "
+                "x every 1-character matrix over 9 cell kinds, 2-character matrices over {0,1,gap} up to one leaf less; each scored on fresh trees (bifurcating-seed form and, from 3 leaves, the "
+                "trifurcating-seed form of the same unrooted tree; 0-2 extra matrix taxa that are not on the tree) for both gap "
                 "treatments x every weight vector over {0,1,2}, as Standard matrix and 1 in %d also embedded in Dna) + one real history per "
                 "transition of the dumped SpecS graph (%d transitions; those starting more than one step from an initial state: 1 in %d) + %d seeded random histories and %d random instances on trees with "
-                "5-9 leaves; distinct_nontrivial = distinct (tree, taxa, matrix, gap treatment, weights, api[, cached leaf sets]) calls whose "
+                "5-9 leaves (re-rooting on edges and at nodes, rotation, pruning, extra matrix taxa); distinct_nontrivial = distinct (tree, taxa, matrix, gap treatment, weights, api[, cached leaf sets]) calls whose "
                 "matrix has a column with at least two different symbols" % (ninputs, ml, 6 if q else 2, nedges, 8 if q else 1, nrand, ntab))
     ctx.exhaustive = True
     ctx.extra["exhaustive_domain"] = ("ordered bifurcating shapes x 1-character matrices over {0,1,2,{01},{02},{12},{012},gap,?} with 2..%d leaves "
                                       "and 2-character matrices over {0,1,gap} with 2..%d leaves: all %d such inputs of the TLC dump replayed"
                                       % (min(ml, 4), 3 if q else 4, ninputs - nbig))
     ctx.extra["model_inputs"] = ninputs
-    ctx.extra["model_inputs_5_leaves_sampled_1_in_10"] = nbig
+    ctx.extra["model_inputs_5_leaves_sampled_1_in_5"] = nbig
     ctx.extra["model_transitions"] = nedges
     ctx.extra["model_transitions_replayed"] = len(cases_p)
     ctx.assumptions.append("trees with more than 9 nodes are judged by brute force over the states occurring in the column "
                            "(lemma ThmUsedStates, TLC-checked on the bounded domain); smaller ones over the whole alphabet")
-    ctx.assumptions.append("only fully bifurcating trees (also at the root), integer weights, one row per taxon: the documented preconditions")
+    ctx.assumptions.append("only fully bifurcating trees (seed node with 2 children, or 3 = the unrooted form), integer weights, a matrix row for every taxon on the tree")
     for kind in ("table", "path", "random"):
         for case, evs in driven:
             if case["kind"] == kind and evs:
